@@ -7,6 +7,7 @@ PROP_MODULES = {
     'C20': ['contracts.builders', 'contracts.shared_grid', 'contracts.c03_grid', 'contracts.c04_meta', 'contracts.c08_creator', 'contracts.c13_expiry', 'contracts.c16_limits', 'contracts.c20_conditional'],
     'C17': ['contracts.builders', 'contracts.shared_grid', 'contracts.c03_grid', 'contracts.c17_upstream'],
     'C10': ['contracts.builders', 'contracts.shared_grid', 'contracts.c03_grid', 'contracts.c04_meta', 'contracts.c16_limits', 'contracts.c20_conditional', 'contracts.c10_auth', 'contracts.c14_merge'],
+    'C15': ['contracts.builders', 'contracts.c15_async'],
     'C14': ['contracts.builders', 'contracts.c14_merge'],
     'C16': ['contracts.builders', 'contracts.shared_grid', 'contracts.c03_grid', 'contracts.c04_meta', 'contracts.c16_limits'],
     'C13': ['contracts.builders', 'contracts.shared_grid', 'contracts.c03_grid', 'contracts.c04_meta', 'contracts.c08_creator', 'contracts.c13_expiry'],
@@ -35,6 +36,16 @@ NOT_APPLICABLE = {
 }
 
 MANIFEST_META = {
+    'C15': dict(
+        text='Proof for EVERY arrival order (an arbitrary injective index sequence of unbounded length, no enumeration): '
+             'ThreadPool._get_results yields the values of indices next, next+1, ... without gap, duplicate or reordering '
+             'and keeps exactly the not-yet-contiguous ones stashed (inductive invariants over the dict and the yielded '
+             'sequence; lemma: if the available indices are [n0, N) then all N - n0 results come out); ThreadWorker.run '
+             'queues exactly one result per task, carrying the task\'s own id, BEFORE task_done(); the sequential branch '
+             'yields one result per item and re-raises in raise mode.',
+        note='queue and thread timing are assumed (FIFO queue stubs, no scheduling explored); termination/liveness of the '
+             'empty() polling and the two-pass composition in map_each (pooled branch), _fetch_results, _result_iter and '
+             'shutdown are not yet under contract; defect S13 (size-1 pool swallowed exceptions) found and repaired'),
     'C10': dict(
         text='Proof of the authorization decision logic and call-site conditions on the real code: tile services '
              '(TMS/WMTS/KML authorize_tile_layer) return normally only without a callback, for \'full\', or for '
